@@ -7,8 +7,10 @@ use std::cell::Cell;
 /// Version of the decoding rules. Saved cases carry the version they were found with, so that
 /// later extensions of the generators (which consume extra choices) do not change the meaning
 /// of the regression replays. 1 = first release; 2 = sibling subscriptions next to a
-/// self-disallowing handler, writer closures that give up their Var handle, Var<Var> ...
-pub const LATEST_DECODER: u32 = 2;
+/// self-disallowing handler, writer closures that give up their Var handle, Var<Var> ...;
+/// 3 = template `switch_between_existing` with an arm built inside the closure and a tail that
+/// drops the bind
+pub const LATEST_DECODER: u32 = 3;
 thread_local! { static DECODER: Cell<u32> = Cell::new(LATEST_DECODER); }
 pub fn set_decoder_version(v: u32) {
     DECODER.with(|d| d.set(v));
